@@ -41,6 +41,8 @@ fn digest_diff(a: &Digest, b: &Digest) -> Option<&'static str> {
         Some("random-stream-position")
     } else if a.rng_config != b.rng_config {
         Some("generator-identity")
+    } else if a.measures != b.measures {
+        Some("measured-state")
     } else {
         None
     }
@@ -57,6 +59,8 @@ impl World for SeqVsPar {
         // assemblies (archives, operator variants, prepared mixed populations)
         let kind = if self.prop == "C08" && g.chance(0.03) {
             Kind::BigInit
+        } else if self.prop == "C08" && g.chance(0.06) {
+            Kind::Measures
         } else if self.prop == "C08" || self.prop == "C16" { *g.pick(&SHIPPED) } else { *g.pick(&crate::checks::tworld::all_kinds()) };
         let kind = if self.mix { Kind::EvalMix } else { kind };
         let opts = GenOpts { penalty: g.chance(0.3), max_iters: tier.pick(6, 15), evaluations_term: self.prop != "C16", log: true };
